@@ -718,8 +718,12 @@ func (vc *FuncVC) modPred(mods []modLoc, r Term) Term {
 		case "addr":
 			ds = append(ds, Eq(r, m.t))
 		case "tree":
-			ds = append(ds, Eq(r, m.t), Eq(App(SRef, "fld_base", r), m.t), Eq(App(SRef, "fld_base", App(SRef, "fld_base", r)), m.t),
-				Eq(App(SRef, "fld_base", App(SRef, "fld_base", App(SRef, "fld_base", r))), m.t))
+			// r is the cell itself or a field (of a field (of a field)) of it; only field references have a fld_base
+			isF := func(x Term) Term { return Eq(App(SInt, "rkind", x), IntLit(1)) }
+			b1 := App(SRef, "fld_base", r)
+			b2 := App(SRef, "fld_base", b1)
+			b3 := App(SRef, "fld_base", b2)
+			ds = append(ds, Eq(r, m.t), And(isF(r), Eq(b1, m.t)), And(isF(r), isF(b1), Eq(b2, m.t)), And(isF(r), isF(b1), isF(b2), Eq(b3, m.t)))
 		case "map":
 			ds = append(ds, Eq(r, m.t))
 		case "elems":
